@@ -7,7 +7,9 @@ From Coquelicot Require Import Coquelicot.
 From DK Require Import Num NumR Vec.
 From DK.Gen Require Import Kernels.
 From DK.Model Require Import Leaf Fn Dev DocSpec.
-From DK.Proofs Require Import RVec KernelR C15Proofs.
+From Coq Require Import QArith Qreals.
+From DK Require Import NumQ.
+From DK.Proofs Require Import RVec KernelR C15Proofs Hom.
 Import ListNotations.
 Local Open Scope R_scope.
 
@@ -71,3 +73,23 @@ Proof. exact zero_width_slot. Qed.
 (* non-vacuity: a concrete IDevice2 slot satisfies the hypotheses, with the documented value *)
 Example C15_example_marginal : hl_marginal_doc (-2) (-1) 0 2 1 = - (3 / 2).
 Proof. unfold hl_marginal_doc. field. Qed.
+
+(* the rational instance of the generated kernels (what the correspondence executes under vm_compute) and the real instance
+   (what the theorems above are about) agree on rational arguments, for integer exponents *)
+Theorem C15_instances_agree_highlow_cost : forall x pl ph xl xh : Q,
+  Q2R (hl_cost (A:=Q) x pl ph xl xh) = hl_cost (A:=R) (Q2R x) (Q2R pl) (Q2R ph) (Q2R xl) (Q2R xh).
+Proof. exact hom_hl_cost. Qed.
+Theorem C15_instances_agree_highlow_deriv : forall x pl ph xl xh : Q,
+  Q2R (hl_deriv (A:=Q) x pl ph xl xh) = hl_deriv (A:=R) (Q2R x) (Q2R pl) (Q2R ph) (Q2R xl) (Q2R xh).
+Proof. exact hom_hl_deriv. Qed.
+Theorem C15_instances_agree_abc_cost : forall (x a : Q) (z : Z) (c xl xh : Q),
+  Q2R (abc_cost (A:=Q) x a (inject_Z z) c xl xh) = abc_cost (A:=R) (Q2R x) (Q2R a) (IZR z) (Q2R c) (Q2R xl) (Q2R xh).
+Proof. exact hom_abc_cost. Qed.
+Theorem C15_instances_agree_abc_deriv : forall (x a : Q) (z : Z) (c xl xh : Q),
+  Q2R (abc_deriv (A:=Q) x a (inject_Z z) c xl xh) = abc_deriv (A:=R) (Q2R x) (Q2R a) (IZR z) (Q2R c) (Q2R xl) (Q2R xh).
+Proof. exact hom_abc_deriv. Qed.
+Theorem C15_instances_agree_abc_hess : forall (x a : Q) (z : Z) (c xl xh : Q),
+  Q2R (abc_hess (A:=Q) x a (inject_Z z) c xl xh) = abc_hess (A:=R) (Q2R x) (Q2R a) (IZR z) (Q2R c) (Q2R xl) (Q2R xh).
+Proof. exact hom_abc_hess. Qed.
+Theorem C15_instances_agree_dot : forall a b : list Q, Q2R (dot (A:=Q) a b) = dot (A:=R) (map Q2R a) (map Q2R b).
+Proof. exact hom_dot. Qed.
